@@ -287,6 +287,23 @@ func llRun(id int, sc *llScen, dir string) {
 				blocks = int(atomic.LoadInt64(&llBlocks) - n0)
 			}
 			report(idx, "Start", r, vmap{"phase": "start", "blocks": blocks, "st": int(ctl.lancero.GetState())})
+		case s == "StartBad":
+			// a channel separation that Configure accepts and PrepareChannels refuses (2 < 3 rows): this Start fails after
+			// the card has been sampled; the source must be left inactive, quiet, the card released
+			finishStop()
+			ok := false
+			cfgr := launch(idx, "Configure", func() error {
+				return ctl.ConfigureLanceroSource(&LanceroSourceConfig{FiberMask: 0xffff, CardDelay: []int{1}, ActiveCards: []int{0}, FirstRow: 1, ChanSepColumns: 2}, &ok)
+			})
+			if r := await(cfgr, 3*time.Second); !r.returned || r.err != "" {
+				report(idx, "StartBad", r, vmap{"phase": "configure", "st": int(ctl.lancero.GetState()), "census": llCensus(), "adapter": false, "collector": false})
+				continue
+			}
+			name := "LANCEROSOURCE"
+			r := await(launch(idx, "StartBad", func() error { return ctl.Start(&name, &ok) }), 6*time.Second)
+			x := settle()
+			x["phase"] = "start"
+			report(idx, "StartBad", r, x)
 		case s == "Stop":
 			finishStop()
 			d := "x"
